@@ -1,4 +1,4 @@
-#![allow(unused)]
+#![allow(unused, non_snake_case)]
 use vstd::prelude::*;
 macro_rules! debug { ($($t:tt)*) => { () } }
 macro_rules! trace { ($($t:tt)*) => { () } }
